@@ -62,6 +62,12 @@ def open_doc(name):
 
     from odfdo import Document
 
+    if name.startswith("variant:"):
+        # the same document as another producer could have written it: empty style containers left out
+        import io
+
+        _v, base, seed = name.split(":")
+        return Document(io.BytesIO(DL.variant_package(base, int(seed))))
     if name in DL.TEMPLATES:
         return Document(name)
     return Document(os.path.join(DL.SAMPLES, name))
@@ -422,6 +428,8 @@ def run(ctx, res):
     for c in range(CASES[ctx.tier]):
         rng = ctx.rng(c)
         case = {"source": SOURCES[c % len(SOURCES)], "ops": gen_ops(rng, fams, rng.randint(1, 8))}
+        if rng.random() < 0.25:
+            case["source"] = f"variant:{rng.choice(['text', 'spreadsheet', 'presentation', 'drawing', 'example.odt'])}:{rng.randrange(200)}"
         try:
             v = run_case(case, res)
         except Exception as e:
